@@ -54,6 +54,27 @@ def specAffected (known : Nat → Bool) (vuln : List Affected) (p : Pkg) : Prop 
   known p.eco = true ∧ ∃ a ∈ vuln, a.eco = p.eco ∧ a.name = p.name ∧
     (p.vid ∈ a.versions ∨ ∃ r ∈ a.ranges, matchingType a r = true ∧ osvRange r.events p.version = true)
 
+/-! ### the same rule stated with the ecosystem's comparison on version strings (no ranks) -/
+
+/-- a range event carrying the version STRING (an element of an arbitrary type `α` of version spellings) -/
+structure EvS (α : Type) where
+  k : Kind
+  v : α
+
+/-- one step of the OSV evaluation loop, stated with the ecosystem's comparison itself -/
+def stepC {α : Type} (cmp : α → α → Ordering) (q : α) (vul : Bool) (e : EvS α) : Bool :=
+  match e.k with
+  | .intro => if cmp q e.v ≠ .lt then true else vul
+  | .fixed => if cmp q e.v ≠ .lt then false else vul
+  | .last  => if cmp q e.v = .gt then false else vul
+
+/-- the OSV verdict for a range listed in any order: order the events with the comparison, then evaluate -/
+def osvRangeC {α : Type} (cmp : α → α → Ordering) (es : List (EvS α)) (q : α) : Bool :=
+  (isort (fun a b => cmp a.v b.v == .lt) es).foldl (stepC cmp q) false
+
+def toRank {α : Type} (rank : α → Nat) (e : EvS α) : Ev := ⟨e.k, rank e.v⟩
+
+
 end Scalibr.Vulns
 
 namespace Scalibr.Vulns
